@@ -36,8 +36,16 @@ started near 2^31 / 2^32 / 2^53, snapshots with boundary values in every field, 
 waveforms up to 5 million entries, directory names with special characters, several process time zones, a C++ global
 locale with digit grouping, two handles / two libraries in one process, rows written by a foreign writer (flags, list
 re-ordering, missing performance rows, NULL blobs, WAL mode, ANALYZE statistics), a fault injected at every SQL
-statement of every mutating call, ASan/UBSan/TSan builds, an independent decoder of the stored bytes, and a reader of the
-raw tables.  Ideas ALREADY submitted for this property (do not repeat them or close variants of them):
+statement of every mutating call (when it is compiled or when it is stepped, with the stored rows compared afterwards), ASan/UBSan/TSan
+builds, an independent decoder of the stored bytes, and a reader of the raw tables.  Also varied already: library directories
+given as relative paths, through symlinks and with "..", track paths that begin with the library directory, real audio files
+next to the library, lists of 25 000 entries and subtrees of 3000 crates, playlists / history / prepare lists written by
+Engine whose ids coincide with crate ids, Engine-only flag columns and membership references, beat data whose adjusted grid
+differs from the default one, missing default rows (album art, default lists), WAL mode incl. un-checkpointed -wal files,
+structural changes by a second connection while handles are open, several long-lived table objects next to fresh ones, a
+stale handle to a deleted library in the same directory, allocation failures and small thread stacks in the decoders,
+damaged blobs decoded between valid ones, payload sizes at multiples of 16 KiB, checksum look-alikes, floating-point
+rounding modes for the pure functions, sibling databases (hm.db ...) in the Database2 folder.  Ideas ALREADY submitted for this property (do not repeat them or close variants of them):
 """ + "\n".join(f"  - {i}" for i in ideas) + f"""
 
 Find an axis of variation that is NOT in that description and not in that list, along which a real user's data,
